@@ -81,6 +81,9 @@ func (ex *Exec) panicResult(p targetPanic, g *goroutine) pathResult {
 		return pathResult{kind: "ok"}
 	}
 	v := ex.mkViolation("panic", msg, p.where, nil)
+	if v != nil && p.stack != "" {
+		v.Extra["stack"] = p.stack
+	}
 	if v == nil {
 		return pathResult{kind: "inconclusive", reason: "panic path but no model: " + msg}
 	}
